@@ -194,6 +194,11 @@ func (c *Crew) SetMachine(ctx context.Context, mid string, src *crew.SpecSource,
 	}
 
 	if state != nil {
+		if have {
+			// Replace the state of the existing machine (and
+			// not only in the report of what has changed).
+			m.State = DefaultState(state)
+		}
 		c.change(mid).State = state
 	}
 
